@@ -11,6 +11,7 @@ into an analysis error (fail closed).
 import ast
 
 from .report import AnalysisError
+AnalysisErrorType = AnalysisError
 from .srcmodel import unparse, fold_const
 
 
@@ -1489,7 +1490,7 @@ class FDE:
                     raise Raised(type(ex).__name__)
                 return list(r) if n in ('range', 'enumerate', 'zip', 'reversed', 'map', 'filter') else r
             if n in env and callable(env[n]) and getattr(env[n], '_fde_ok', False):
-                return env[n](*args, **kwargs)
+                return self._standin(env[n], args, kwargs)
             if n in env and isinstance(env[n], tuple) and env[n] and env[n][0] == 'closure':
                 return self._invoke(env[n][1], args, kwargs, base_env=env[n][2])
             if n in env and isinstance(env[n], tuple) and len(env[n]) == 2 and env[n][0] == 'class' and env[n][1] in self.repo.classes and env[n][1] not in self.stubs and self._plain_class(env[n][1]):
@@ -1525,7 +1526,7 @@ class FDE:
                 return Opaque('instance of ' + n)
             raise Unsupported('call of %s (unresolved)' % n)
         if isinstance(f, ast.Attribute) and unparse(f) in self.extcalls:
-            return self.extcalls[unparse(f)](*args, **kwargs)
+            return self._standin(self.extcalls[unparse(f)], args, kwargs)
         if isinstance(f, ast.Attribute) and unparse(f) in _PURE_EXTERNALS and all(isinstance(a, (str, int)) for a in args) and not kwargs:
             return _PURE_EXTERNALS[unparse(f)](*args)
 
@@ -1591,12 +1592,12 @@ class FDE:
                 return None
             import types as _types
             if isinstance(target, (_types.FunctionType, _types.LambdaType)) and getattr(target, '_fde_ok', False):
-                return target(*args, **kwargs)
+                return self._standin(target, args, kwargs)
             if isinstance(target, tuple) and target and target[0] == 'pymethod':
                 # stdlib regular-expression objects: evaluated by the stdlib itself on concrete strings
                 if not all(a is None or isinstance(a, (str, int)) for a in args):
                     raise Unsupported('regex method on abstract arguments')
-                r_ = getattr(target[1], target[2])(*args, **kwargs)
+                r_ = self._standin(getattr(target[1], target[2]), args, kwargs)
                 return list(r_) if target[2] in ('finditer',) else r_
             if isinstance(target, tuple) and target and target[0] == 'strmethod':
                 if all(isinstance(a, (str, int, tuple)) or (isinstance(a, list) and all(isinstance(x, str) for x in a)) for a in args):
@@ -1613,6 +1614,15 @@ class FDE:
         if isinstance(f, (ast.Subscript, ast.Call, ast.IfExp)):
             return self._apply(self._ev(f, env, fi), args, kwargs, e)      # table[key](...), factory(...)(...)
         raise Unsupported('call of %s' % unparse(f))
+
+    def _standin(self, fn, args, kwargs):
+        """call of a Python stand-in (stdlib function on concrete values): what it raises is what the real call would raise"""
+        try:
+            return fn(*args, **kwargs)
+        except (Raised, Unsupported, _Return, _Break, _Continue, Yielded, AnalysisErrorType):
+            raise
+        except Exception as ex:  # noqa
+            raise Raised(type(ex).__name__)
 
     def _apply_getitem(self, o, k, e):
         if isinstance(o, Obj):
@@ -1650,7 +1660,7 @@ class FDE:
                 return self._invoke(target.fi, [('class', target.recv.cls)] + args, kwargs)
             return self._invoke(target.fi, [target.recv] + args, kwargs)
         if callable(target) and getattr(target, '_fde_ok', False):
-            return target(*args, **kwargs)
+            return self._standin(target, args, kwargs)
         if isinstance(target, Obj) and target.cls in self.repo.classes and self.repo.resolve(target.cls, '__call__') is not None:
             return self._invoke(self.repo.resolve(target.cls, '__call__'), [target] + list(args), dict(kwargs))
         raise Unsupported('call of the value %r (%s)' % (target, unparse(e.func) if isinstance(e, ast.Call) else unparse(e)))
